@@ -61,6 +61,7 @@ pub fn reconcile_aliases(crate_parsed_data: &mut BTreeMap<CrateName, ParsedData>
         parsed_data.structs.sort();
         parsed_data.enums.sort();
         parsed_data.aliases.sort();
+        parsed_data.consts.sort();
 
         // put back our import types for file generation.
         parsed_data.import_types = import_types;
